@@ -8,7 +8,7 @@ Conformance  : every scenario of the event lattice (time, state and derivative e
                residual, equality with the dense solution, distance to the true root, direction and uniqueness against the
                ground truth the scenario defines.
 """
-from vf import odecore, core, evgen, dense_events, gen
+from vf import modelreplay, odecore, core, evgen, dense_events, gen
 
 LEVEL = "model_checking"
 PREFIX = ("C07.",)
@@ -16,6 +16,9 @@ PID = "C07"
 
 
 def run_events(run, replay, prefix, pid):
+    if replay and isinstance(replay.get("scenario"), dict) and "modelreplay" in replay["scenario"]:
+        modelreplay.phase(run, [], pid, ("Events",), replay=replay["scenario"]["modelreplay"])
+        return
     if replay:
         scs = odecore.replay_scenarios(replay)
     else:
@@ -62,6 +65,11 @@ def run_events(run, replay, prefix, pid):
         elif 1 <= k <= len(c["truths"]):
             detail["truth"] = c["truths"][k - 1]
         run.violation(b["clause"], odecore.describe(sc) + " t0=%s" % sc["t0"], detail, replay=sc)
+    if not replay:
+        # spec -> code: behaviours of the design model with events (roots on step boundaries shared by two steps, two functions crossing in
+        # one step in either order, terminal after non-terminal, continuation calls) replayed on the real code: the reported events must
+        # be exactly the model's, in its order
+        modelreplay.phase(run, ["OdeSystemSim_fixed_nofault", "OdeSystemSim_adaptive_nofault"], pid, ("Events",), keep=modelreplay.has_events)
 
 
 def check(run, replay=None):
@@ -72,4 +80,5 @@ def check(run, replay=None):
     run_events(run, replay, PREFIX, PID)
     run.assumptions += ["ground truth for the location of roots: time events (root = c) and state events on y' = -y^2 (t* = 1/c - 1); other "
                         "state/derivative events are checked on residual, dense-solution equality, direction, ordering, uniqueness",
-                        "direction on backward runs: a report is accepted if it is compatible under either reading (along the run / along time)"]
+                        "direction is read along the run (g from the end the step comes from to the end it goes to), on backward runs too: the "
+                        "reading of the pinned library and of scipy's solve_ivp, which the facade replaces"]
